@@ -274,7 +274,7 @@ def sample(ctx, budget=1.0, hint=None, broken=None):
     from .c05 import _rand_seg
     for it in range(int(ctx.n(60, 600) * budget)):
         n = r.randint(1, 5)
-        long_ = r.random() < 0.15
+        long_ = r.random() < 0.25
         if long_:
             n = r.randint(33, 45)        # long outlines (any shortcut that only switches on for many segments)
         cur = complex(r.uniform(-3, 3), r.uniform(-3, 3))
@@ -282,7 +282,7 @@ def sample(ctx, budget=1.0, hint=None, broken=None):
         for i in range(n):
             if long_ and r.random() < 0.35:
                 # unevenly parametrised: both handles bunched at one end, the other end far away (point(0.5) is nowhere near the middle)
-                d_ = cmath.exp(1j * r.uniform(0, 6.28)) * r.choice([3.0, 12.0, 40.0])
+                d_ = cmath.exp(1j * r.uniform(0, 6.28)) * r.choice([12.0, 40.0, 100.0])
                 e_ = r.choice([0, 1])
                 segs.append(P.CubicBezier(cur, cur + d_ * (0.001 if e_ == 0 else 0.998), cur + d_ * (0.002 if e_ == 0 else 0.999), cur + d_))
             else:
@@ -290,6 +290,10 @@ def sample(ctx, budget=1.0, hint=None, broken=None):
             cur = segs[-1].end
             if long_ and r.random() < 0.1:
                 cur = cur + complex(r.uniform(20, 60), r.uniform(-30, 30))       # a detached stroke far away
+        if long_:
+            far_ = cur + complex(r.choice([400, -350]), r.choice([300, -250]))
+            segs.append(P.Line(far_, far_ + complex(20, 0)))                     # ... and one very far away
+            n = len(segs)
         if r.random() < 0.25:
             # a segment that is itself a closed loop (start == end): a teardrop cubic or an out-and-back quadratic
             k_ = r.randrange(len(segs) + 1)
@@ -303,11 +307,22 @@ def sample(ctx, budget=1.0, hint=None, broken=None):
         where = r.choice(['far', 'near', 'start', 'joint', 'interior', 'beside', 'beside'])
         kb = r.randrange(n)
         chord = segs[kb].end - segs[kb].start
+        bunched_ = [i_ for i_, sg_ in enumerate(segs) if isinstance(sg_, P.CubicBezier) and (abs(sg_.control2 - sg_.start) < 0.01 * abs(sg_.end - sg_.start)
+                                                                                              or abs(sg_.control1 - sg_.end) < 0.01 * abs(sg_.end - sg_.start))]
+        if bunched_ and r.random() < 0.6:
+            where = 'beside-uneven'
+            kb = r.choice(bunched_)
+            chord = segs[kb].end - segs[kb].start
         # 'beside': next to the middle of some (possibly late, possibly long) segment, much closer to it than to the corners
         # of its bounding box
         z = {'far': complex(50, -70), 'near': segs[0].point(0.3) + 0.01, 'start': segs[0].start,
              'joint': segs[r.randrange(n)].end, 'interior': segs[r.randrange(n)].point(0.37),
-             'beside': segs[kb].point(r.uniform(0.35, 0.65)) + 1j * chord * r.choice([0.02, -0.02, 0.1, -0.005])}[where]
+             'beside': segs[kb].point(r.uniform(0.35, 0.65)) + 1j * chord * r.choice([0.02, -0.02, 0.1, -0.005]),
+             # next to the sparsely parametrised stretch of an unevenly parametrised cubic (far from its point(0.5))
+             'beside-uneven': None}[where]
+        if where == 'beside-uneven':
+            sparse_end = abs(segs[kb].control2 - segs[kb].start) < abs(segs[kb].control1 - segs[kb].end)
+            z = (segs[kb].start + chord * (r.uniform(0.86, 0.97) if sparse_end else r.uniform(0.03, 0.14))) + 1j * chord * r.choice([0.004, -0.004, 0.001])
         n_eval += 1
         nontriv.add(('path', n, where))
         z, zrep_ = ztyped(z)
